@@ -1540,6 +1540,8 @@ def eq_model(negate):
 
 MODELS["std::cmp::PartialEq::eq"] = eq_model(False)
 MODELS["std::cmp::PartialEq::ne"] = eq_model(True)
+# a string literal in a pattern (`Some((id, ""))`) is lowered to a direct call of the impl
+MODELS["core::str::traits::<impl std::cmp::PartialEq for str>::eq"] = MODELS["std::cmp::PartialEq::eq"]
 
 
 # ---------------------------------------------------------------------------------------------
